@@ -315,9 +315,42 @@ pub fn dd_exp(ctx: &mut Ctx, emin: i64, emax: i64, zero_ok: bool) -> Dd {
         let zl = if ctx.flag() { -0.0 } else { 0.0 };
         return Dd::new(z, zl);
     }
+    if ctx.chance(1, 24) {
+        if let Some(d) = decimal_literal(ctx, emin, emax) {
+            return d;
+        }
+    }
     let hi = f64_exp(ctx, emin, emax);
     let lo = low_word(ctx, hi);
     Dd::new(hi, lo)
+}
+
+/// What users write: k x 10^j (0.1, 0.25, 3, 100, 1e-3, 6.02e23 ...), either as the f64 literal
+/// promoted with a zero low word or as the double-double quotient / product of the two integers
+/// (`TwoFloat::from(k) / 10^j`, obtained through the crate's own operators, like a user would).
+pub fn decimal_literal(ctx: &mut Ctx, emin: i64, emax: i64) -> Option<Dd> {
+    let k = match ctx.below(3) {
+        0 => ctx.range(1, 9),
+        1 => ctx.range(1, 99),
+        _ => ctx.range(1, 9999),
+    } as f64;
+    let j = if ctx.flag() { ctx.range(-3, 3) } else { ctx.range(-22, 22) };
+    let p = 10f64.powi(j.unsigned_abs() as i32); // exact for |j| <= 22
+    let hi = if j < 0 { k / p } else { k * p };
+    let refined = ctx.flag();
+    let neg = ctx.flag();
+    let d = if refined {
+        let t = if j < 0 { TwoFloat::from(k) / TwoFloat::from(p) } else { TwoFloat::from(k) * TwoFloat::from(p) };
+        Dd::of(t)
+    } else {
+        Dd::new(hi, 0.0)
+    };
+    let d = if neg { d.neg() } else { d };
+    if !d.valid() || d.hi == 0.0 || exponent(d.hi) < emin || exponent(d.hi) > emax {
+        return None;
+    }
+    ctx.label("operand:decimal-literal");
+    Some(d)
 }
 
 /// valid double-double near a given f64 `hi` (hi finite normal non-zero)
